@@ -146,7 +146,18 @@ fn union_variant_matches_scalar_arg(
 }
 
 fn union_contains(union: &UnionTypeAnnotationDeclaration, potential_member: &UnionVariant) -> bool {
-    union.variants.contains(potential_member)
+    match potential_member {
+        UnionVariant::Scalar(_) => union.variants.contains(potential_member),
+        // List variants carry the location at which they were written, which must not take
+        // part in the comparison, and their item types only have to be compatible.
+        UnionVariant::Plural(supplied) => union.variants.iter().any(|variant| match variant {
+            UnionVariant::Scalar(_) => false,
+            UnionVariant::Plural(target) => variable_type_satisfies_argument_type(
+                supplied.item.reference(),
+                target.item.reference(),
+            ),
+        }),
+    }
 }
 
 pub fn value_satisfies_type<TCompilationProfile: CompilationProfile>(
